@@ -16,15 +16,14 @@ From Coq Require Import ZifyBool ZifyNat ZifyN Lia.
 Open Scope N_scope.
 
 (* ---------- well-formed items: what the parser relies on ---------- *)
-(* val[1:] / val[2:] of $x .x .1 ?.x ?.1 items; the position is a position of the input; a
-   float item denotes a float of the model's domain (Model/ExprParser.v, oom_float) *)
+(* val[1:] / val[2:] of $x .x .1 ?.x ?.1 items; the position is a position of the input.
+   (No condition on float items any more: Model/ExprParser.v is total on them.) *)
 Definition twfb (inlen : N) (t : tok) : bool :=
   (t_pos t <=? inlen)
   && (if (t_typ t =? pit_DollarIdent) || (t_typ t =? pit_DotIdent) || (t_typ t =? pit_DotIndex)
       then (1 <=? length (t_val t))%nat else true)
   && (if (t_typ t =? pit_QuestionDotIdent) || (t_typ t =? pit_QuestionDotIndex)
-      then (2 <=? length (t_val t))%nat else true)
-  && (if t_typ t =? pit_Float then match parse_float (t_val t) with Some _ => true | None => false end else true).
+      then (2 <=? length (t_val t))%nat else true).
 
 (* an EOF item is the last item *)
 Fixpoint eof_last (l : list tok) : Prop :=
